@@ -126,6 +126,13 @@ class Schema2DF(Schema2Base):
             constants.description: entry.description,
             constants.equivalent_to: self._get_tag_equivalent_to(entry),
         }
+        if not include_props:
+            # A partner (standard) entry written only as the holder of library entries, e.g. a standard unit class
+            # that gained a library unit: name only, as the XML and MediaWiki writers do.
+            new_row[constants.hed_id] = ""
+            new_row[constants.attributes] = ""
+            new_row[constants.description] = ""
+            new_row[constants.equivalent_to] = ""
         # Handle the special case of units, which have the extra unit class
         if hasattr(entry, "unit_class_entry"):
             class_entry_name = entry.unit_class_entry.name
